@@ -30,9 +30,10 @@ PARTIAL = ['C03_int_text_partial: |n| < 10^15 - 2 (float log10 width) and n <> -
            'C03_fasta_partial: every sequence non-empty']
 PER_FILE = 40
 
+# column kinds: D identifier (SequenceID), S text, I int, L int list, F float, Q qualities, R rest of line
 KINDS = {
-    'bed3': 'SII', 'bed6': 'SIISIS', 'bed12': 'SIISISIISILL', 'bdg': 'SIIF', 'narrowpeak': 'SIISISFFFI',
-    'sam': 'SISIISSIISSR', 'gtf': 'SSSIISSSS', 'vcf': 'SISSSSSS', 'fasta': 'SS', 'fastq': 'SSQ',
+    'bed3': 'DII', 'bed6': 'DIIDIS', 'bed12': 'DIIDISIISILL', 'bdg': 'DIIF', 'narrowpeak': 'DIIDISFFFI',
+    'sam': 'DIDIISSIISSR', 'gtf': 'DSDIISSSS', 'vcf': 'DISSSSSS', 'fasta': 'DS', 'fastq': 'DSQ',
 }
 SUFFIX = {'bed3': '.bed', 'bed6': '.bed', 'bed12': '.bed', 'bdg': '.bdg', 'narrowpeak': '.narrowPeak', 'sam': '.sam',
           'gtf': '.gtf', 'vcf': '.vcf', 'fasta': '.fa', 'fastq': '.fq'}
@@ -64,7 +65,7 @@ class G:
         n = self.r.choice([lo, lo, 1, 2, 3, hi, self.r.randint(lo, hi)])
         return ''.join(self.r.choice(IDCH) for _ in range(max(lo, n)))
 
-    def coord(self, wide=0.25, neg=0.15):
+    def coord(self, wide=0.08, neg=0.15):
         x = self.r.random()
         if x < wide:
             v = self.r.choice(EDGE)
@@ -426,7 +427,7 @@ def observe(case):
                 cols = []
                 for fld, k in zip(dataclasses.fields(cls), kinds):
                     v = getattr(r, fld.name)
-                    if k in 'SR':
+                    if k in 'DSR':
                         col = [x.encode('latin1').hex() for x in _texts(v)]
                     elif k == 'I':
                         col = [int(x) for x in np.asarray(v).tolist()]
@@ -464,7 +465,7 @@ def _texts(v):
 
 # ----------------------------------------------------------------------------- Coq emitter
 def _fld(k, v, read=False):
-    if k in 'SR':
+    if k in 'DSR':
         return 'FS %s' % (hx(bytes.fromhex(v)) if read else hx(v.encode('latin1')))
     if k == 'I':
         return 'FI %s' % cz(v)
@@ -503,7 +504,7 @@ def _header(case):
     return VCF_DEFAULT_HEADER.encode()
 
 
-KCODE = {'S': 0, 'I': 1, 'L': 2, 'F': 3, 'Q': 4, 'R': 5}
+KCODE = {'S': 0, 'I': 1, 'L': 2, 'F': 3, 'Q': 4, 'R': 5, 'D': 6}
 
 
 def to_coq(case, o):
@@ -524,7 +525,7 @@ def to_coq(case, o):
 
 # ----------------------------------------------------------------------------- evidence helpers
 def _cell_width(k, v):
-    if k in 'SR':
+    if k in 'DSR':
         return len(v)
     if k == 'I':
         return len(str(v))
@@ -601,35 +602,165 @@ def distribution(cases, obs):
     return d
 
 
-# ----------------------------------------------------------------------------- known findings (signature matchers)
-def _int_cells(case):
-    for r in case['rows']:
-        for k, v in zip(KINDS[case['fmt']], r):
-            if k == 'I':
-                yield v
-            elif k == 'L':
-                for x in v:
-                    yield x
+# ----------------------------------------------------------------------------- known findings
+# A Python mirror of the writer with one switch per recorded defect.  A violating case is attributed to a finding only
+# when switching on that defect (alone, or together with others) reproduces the observation exactly — so a new
+# defect on the same input class is still reported.
+F_INT = 'C03-int-width-float-log10'
+F_FASTA = 'C03-fasta-empty-sequence'
+F_UNION = 'C03-vcfentry-union-info-keyerror'
+F_GZAPP = 'C03-gzip-append-header-again'
+F_STREAM = 'C03-stream-of-empty-chunks-no-header'
+F_EMPTYID = 'C03-all-empty-identifier-column-unreadable'
+F_ORDER = [F_INT, F_FASTA, F_UNION, F_GZAPP, F_STREAM, F_EMPTYID]
 
 
-def _bad_width_int(x):
-    if x == I64MIN:
+def _int_text(n, pinned):
+    if not pinned:
+        return str(n)
+    if n == I64MIN:
+        return '-2'
+    a = abs(n)
+    d = len(str(a))
+    slack = {15: 2, 16: 21, 17: 407, 18: 4031}.get(d, 0)
+    t = ('0' if 10 ** d - a <= slack else '') + str(a)
+    return ('-' if n < 0 else '') + t
+
+
+def _cell_text(k, v, pinned):
+    if k in 'DSR':
+        return v
+    if k == 'I':
+        return _int_text(v, pinned)
+    if k == 'L':
+        return ','.join(_int_text(x, pinned) for x in v)
+    if k == 'Q':
+        return ''.join(chr(q + 33) for q in v)
+    return str(float(v))
+
+
+def _ref_chunk(case, rows, T):
+    """(err, text) of one from_data call"""
+    fmt, kinds = case['fmt'], KINDS[case['fmt']]
+    pinned = F_INT in T
+    if fmt == 'fasta':
+        w = case['width']
+        if F_FASTA in T and any(len(r[1]) == 0 and len(r[0]) != w - 1 for r in rows):
+            return 1, ''
+        out = ''
+        for n, sq in rows:
+            out += '>' + n + '\n' + ''.join(sq[i:i + w] + '\n' for i in range(0, len(sq), w))
+        return 0, out
+    if fmt == 'fastq':
+        return 0, ''.join('@%s\n%s\n+\n%s\n' % (r[0], r[1], _cell_text('Q', r[2], pinned)) for r in rows)
+    if fmt == 'vcf' and case['variant'] == 'union' and F_UNION in T:
+        return 2, ''
+    out = ''
+    for r in rows:
+        cells = [_cell_text(k, (v + 1 if (fmt == 'vcf' and j == 1) else v), pinned) for j, (k, v) in enumerate(zip(kinds, r))]
+        out += '\t'.join(cells) + '\n'
+    return 0, out
+
+
+def _ref_run(case, T):
+    """expected (err, bytes, read_ok, rows) when exactly the defects in T are present"""
+    hdr = _header(case).decode()
+    has_header = case['fmt'] not in ('fasta', 'fastq')
+    content = ''
+    err = 0
+    for s, cs in zip(case['hist'], _rows_for_session(case)):
+        if not s['append']:
+            content = ''
+        hw = False
+        is_ab = s['append'] and not (case['gz'] and F_GZAPP in T)
+        for c, chunks in zip(s['calls'], cs):
+            todo = [ch for ch in chunks if ch] if c['stream'] else chunks
+            if c['stream'] and F_STREAM not in T and not todo and chunks:
+                todo = [[]]
+            for ch in todo:
+                if has_header and not is_ab and not hw:
+                    content += hdr
+                    hw = True
+                if ch:
+                    err, txt = _ref_chunk(case, ch, T)
+                    content += txt
+                if err:
+                    break
+            if err:
+                break
+        if err:
+            break
+    rows = case['rows']
+    kinds = KINDS[case['fmt']]
+    read_ok = err == 0
+    if read_ok and rows:
+        if F_EMPTYID in T and any(k == 'D' and all(r[j] == '' for r in rows) for j, k in enumerate(kinds)):
+            read_ok = False
+        if case['fmt'] == 'fasta' and F_FASTA in T and any(len(r[1]) == 0 for r in rows):
+            read_ok = False
+    exp_rows = []
+    if read_ok:
+        for r in rows:
+            e = []
+            for k, v in zip(kinds, r):
+                if k == 'I':
+                    e.append(int(_int_text(v, F_INT in T)))
+                elif k == 'L':
+                    e.append([int(_int_text(x, F_INT in T)) for x in v])
+                else:
+                    e.append(v)
+            exp_rows.append(e)
+    return err, content.encode('latin1'), read_ok, exp_rows
+
+
+def _explained(case, o, T):
+    err, content, read_ok, exp_rows = _ref_run(case, T)
+    if err != o['err'] or content.hex() != o['written']:
+        return False
+    if err:
         return True
-    a = abs(x)
-    for k, s in ((15, 2), (16, 21), (17, 407), (18, 4031)):
-        if 10 ** k - s <= a < 10 ** k:
-            return True
-    return False
+    if read_ok != o['read_ok']:
+        return False
+    if not read_ok:
+        return True
+    kinds = KINDS[case['fmt']]
+    if len(exp_rows) != len(o['read']):
+        return False
+    for e, g in zip(exp_rows, o['read']):
+        for k, a, b in zip(kinds, e, g):
+            if k in 'DSR':
+                if a.encode('latin1').hex() != b:
+                    return False
+            elif k == 'F':
+                if b[1] == 0:
+                    return False
+                from fractions import Fraction
+                fa, fb = Fraction(*float(a).as_integer_ratio()), Fraction(b[0], b[1])
+                if abs(fa - fb) * 10 ** 12 > abs(fa):
+                    return False
+            elif a != b:
+                return False
+    return True
+
+
+def _explaining_set(case, o):
+    for n in range(0, len(F_ORDER) + 1):
+        for T in itertools.combinations(F_ORDER, n):
+            if _explained(case, o, set(T)):
+                return T
+    return None
 
 
 def finding(case, o):
-    fmt = case['fmt']
-    if fmt == 'fasta' and o['err'] == 1 and any(len(r[1]) == 0 for r in case['rows']):
-        return 'C03-fasta-empty-sequence'
-    if fmt == 'vcf' and case['variant'] == 'union' and o['err'] == 2 and 'Union' in o['errtype']:
-        return 'C03-vcfentry-union-info-keyerror'
+    T = _explaining_set(case, o)
+    if T:
+        return T[0]
     return None
 
 
 def signature(case, o):
-    return '%s/%s/err%d/read%s' % (case['fmt'], case['variant'], o.get('err', -1), o.get('read_ok'))
+    T = _explaining_set(case, o)
+    if T:
+        return '+'.join(T)
+    return '%s/%s/err%d/read%s/%s' % (case['fmt'], case['variant'], o.get('err', -1), o.get('read_ok'),
+                                    'gz' if case['gz'] else '')
